@@ -14,7 +14,7 @@ func init() {
 	property("C16",
 		"Static conformance of the line-marker mechanism: (a) transparency — marker lines are produced only by emitLineMarker (one whole line '# <n> \"<file>\"'), every call of it is guarded by shouldEmitLineMarkers(enable, path) = enable && len(path) > 0 on the same path value, the enable flag and the input path flow only into parameters of that role (they are never tested directly), and the raw-block emitter writes the same text in both arms apart from the markers; (b) every marker is followed, as the next write to the same builder, by the rendering of the construct that owns the marker's token (same object, or same index of parallel slices); (c) no position-less token can reach the AST, a marker or an error: no token literal is synthesised without a line number, no token variable is read before it is assigned on some path, and an operand's token is the token that is current when the operand's first literal is read. NOT decided: the line arithmetic of multi-line raw blocks.",
 		[]string{"lexer tokens carry the line they start on (C19.a)", "go/ssa lowering is faithful to the source"},
-		"C16.a", "C16.b", "C16.c", "C19.a", "C19.b", "C14.a")
+		"C16.a", "C16.b", "C16.c", "C19.a", "C19.b", "C14.a", "C17.f")
 
 	register(&Rule{ID: "C16.a", Doc: "marker emission guarded by shouldEmitLineMarkers; flag and path confined to their role", Floor: 18, Run: c16a})
 	register(&Rule{ID: "C16.b", Doc: "each marker's token belongs to the construct rendered by the next write", Floor: 13, Run: c16b})
@@ -556,6 +556,118 @@ func c16c(c *Ctx) {
 			v := c.fieldAtUse(fn, a, spec.field, lastUse(a))
 			check(v, c.W.Pos(a.Pos()))
 		})
+	}
+	// (iii') an auto-var operand takes the position of its command: the token it is copied from is
+	// the Token of the command statement that parseCommandStatement returned (wherever the copy is made)
+	for _, spec := range []struct{ fn, typ string }{{"parser.Parser.parseLeafBooleanExpression", "OperatorExpression"}, {"parser.Parser.parseSwitchStatement", "SwitchStatement"}} {
+		fn := c.Fn(spec.fn)
+		if fn == nil {
+			continue
+		}
+		for _, st := range storesToField(fn, "ast", spec.typ, "Operand") {
+			// where the operand's token comes from: the token window (the var()/flag() form, judged
+			// above — but not a window token read after a command was parsed), or the Token of the
+			// parsed command statement (the auto-var form)
+			nOp++
+			okSrc := true
+			got := ""
+			leaves := c.originLeaves(fn, st.Val)
+			// the branch that handles an auto-var command (its guards say so) must use the command's token
+			autoBranch := false
+			for _, l := range c.mustLits(fn, st.Block()) {
+				if (strings.HasPrefix(l, "-(") && strings.Contains(l, "expectPeekVarOrAutoVar@") && strings.HasSuffix(l, "#0 == nil)")) || (strings.HasPrefix(l, "+") && strings.Contains(l, "peekTokenIsAutoVar")) {
+					autoBranch = true
+				}
+			}
+			for _, lf := range leaves {
+				t := lf.term
+				isCmdTok := (strings.Contains(t, "parseCommandStatement@") && strings.HasSuffix(t, "#0.Token")) || (strings.Contains(t, "expectPeekVarOrAutoVar@") && strings.HasSuffix(t, "#1.Token"))
+				isWindow := regexpMust(`\$0\.(curToken|peekToken|peek[234]Token)`).MatchString(t) && !strings.Contains(t, "parseCommandStatement")
+				if (!isCmdTok && !isWindow) || (autoBranch && !isCmdTok) {
+					okSrc = false
+					got = t
+				}
+			}
+			c.Check(okSrc && len(leaves) > 0, fmt.Sprintf("%s/%s.Operand/token-origin", fn.Name(), spec.typ), c.W.Pos(st.Pos()), "the operand's token is a token read from the input, or — for an auto-var operand — the Token of its command statement", "the token of an operand is copied from "+pretty(got)+"; an auto-var operand is located at its command (the Token of the parsed command statement), not where the command ends: positions and line markers would be off")
+		}
+	}
+	// (v) a node's own token is the token that was current when its parser was entered (the
+	// construct's first token), however the node is built
+	{
+		exempt := map[string]bool{}
+		nTok := 0
+		for _, fn := range c.W.FuncsOf("parser") {
+			if isTestFunc(c.W, fn) || fn.Signature.Recv() == nil || len(fn.Blocks) == 0 {
+				continue
+			}
+			res := fn.Signature.Results()
+			if res.Len() == 0 {
+				continue
+			}
+			n := namedOf(res.At(0).Type())
+			if n == nil || n.Obj().Pkg() == nil || n.Obj().Pkg().Name() != "ast" {
+				continue
+			}
+			stt, isStruct := n.Underlying().(*types.Struct)
+			hasTok := false
+			if isStruct {
+				for i := 0; i < stt.NumFields(); i++ {
+					if stt.Field(i).Name() == "Token" && typeIs(stt.Field(i).Type(), "token", "Token") {
+						hasTok = true
+					}
+				}
+			}
+			if !hasTok || exempt[fn.Name()] {
+				continue
+			}
+			for i, r := range returnsOf(fn) {
+				if !isSuccessReturn(r) || isNilConst(r.Results[0]) {
+					continue
+				}
+				f := c.valueFields(fn, r.Results[0], r)
+				if f == nil {
+					continue
+				}
+				nTok++
+				got := f["Token"]
+				ok := got == "$0.curToken" || (n.Obj().Name() == "MapScriptsStatement" && strings.HasPrefix(got, "$0.peekToken!cparseScopeModifier@"))
+				_ = i
+				c.Check(ok, fmt.Sprintf("%s/%s.Token", fn.Name(), n.Obj().Name()), c.W.Pos(r.Pos()), "the node's token is the construct's first token", n.Obj().Name()+".Token is "+pretty(got)+", expected the token current when "+fn.Name()+" was entered: a marker or error for this construct would name the line of a later token")
+			}
+		}
+		c.Check(nTok >= 10, "node-tokens/scanned", "-", fmt.Sprintf("%d node tokens checked", nTok), fmt.Sprintf("only %d node tokens found", nTok))
+	}
+	// (vi) the tokens of list items (movement steps, mart items) are the tokens the items were read
+	// as: what the list parsers append comes from the token window, not from any table
+	for _, name := range []string{"parser.parseMartValue", "parser.parseMovementValue"} {
+		fn := c.Fn(name)
+		if fn == nil {
+			continue
+		}
+		n := 0
+		for _, ci := range callsIn(fn) {
+			call, ok := ci.(*ssa.Call)
+			if !ok || calleeName(call) != "builtin:append" || len(call.Call.Args) < 2 {
+				continue
+			}
+			for _, e := range varargElems(call.Call.Args[1]) {
+				if !typeIs(e.Type(), "token", "Token") {
+					continue
+				}
+				n++
+				okW := true
+				got := ""
+				for _, lf := range c.originLeaves(fn, e) {
+					t := lf.term
+					got = t
+					if !strings.HasPrefix(t, "$0.curToken") && !strings.HasPrefix(t, "$0.peekToken") {
+						okW = false
+					}
+				}
+				c.Check(okW, fmt.Sprintf("%s/item-token", fn.Name()), c.W.Pos(call.Pos()), "an item's token is the token it was read as", "the token recorded for a list item is "+pretty(got)+", which does not come from the token window: its marker would name another line")
+			}
+		}
+		c.Check(n > 0, fn.Name()+"/item-tokens", c.W.FuncPos(fn), fmt.Sprintf("%d item token appends", n), "no item token is appended in "+fn.Name())
 	}
 	// (iv) every token field that a marker site reads is set wherever the parser builds a node of
 	// that type (otherwise some way of producing the node yields a marker for line 0)
